@@ -10,6 +10,7 @@ import (
 	"os"
 	"runtime/debug"
 	"sort"
+	"strings"
 	"sync"
 	"time"
 
@@ -76,8 +77,8 @@ func (o Op) String() string {
 		return fmt.Sprintf("setpart(p%d,len=%d,s%d)", o.P, o.Len, o.Seed)
 	case "loadmark":
 		return fmt.Sprintf("loadmark(p%d,off=%d,len=%d,s%d)", o.P, o.Off, o.Len, o.Seed)
-	case "reopen":
-		return fmt.Sprintf("reopen(max=%d,flags=%d,prealloc=%v)", o.MaxSize, o.Flags, o.Prealloc)
+	case "reopen", "reopen-under-faults":
+		return fmt.Sprintf("%s(max=%d,flags=%d,prealloc=%v)", o.Kind, o.MaxSize, o.Flags, o.Prealloc)
 	case "fault":
 		return fmt.Sprintf("fault(%s,+%d,x%d)", [...]string{"write", "sync", "truncate", "mmap", "size", "shortwrite"}[o.P%6], o.N, o.Len)
 	case "rbegin", "rread", "rclose":
@@ -128,6 +129,9 @@ type Engine struct {
 	// Attempt: the state a failed Commit tried to commit (nil if none since the last successful
 	// commit). After a reopen the file may legitimately show it when the failure was the final sync.
 	Attempts []State
+	// OpenAttempt: an open-time transaction (max-size update) ran while I/O calls failed - the disk may show its
+	// attempt while the process goes on with the state before it (until its next successful commit)
+	OpenAttempt bool
 
 	// LastErrText: full text of the last Commit error
 	LastErrText string
@@ -781,6 +785,7 @@ func (e *Engine) apply(op Op) Result {
 			return Result{Err: ErrKind(err)}
 		}
 		e.Attempts = nil
+		e.OpenAttempt = false
 		e.Disk.Marker("commit-ok")
 		for id := range e.txFreed {
 			delete(e.Committed.Pages, id)
@@ -895,7 +900,7 @@ func (e *Engine) apply(op Op) Result {
 		e.CloseReaders("rcloseall")
 		return Result{}
 
-	case "reopen":
+	case "reopen", "reopen-under-faults":
 		if e.Tx != nil || len(e.readers) > 0 {
 			return Result{Skipped: true}
 		}
@@ -913,7 +918,25 @@ func (e *Engine) apply(op Op) Result {
 			opts.Prealloc = op.Prealloc
 		}
 		e.File = nil
-		if err := e.open(opts); err != nil {
+		logAt := e.Disk.LogLen()
+		err := e.open(opts)
+		if op.Kind == "reopen-under-faults" {
+			for _, d := range e.Disk.LogCopy()[logAt:] {
+				if d.Failed {
+					// an open-time transaction may have failed at its final sync only: its header is on disk, the
+					// process goes on with the state before it (until its next commit)
+					e.OpenAttempt = true
+				}
+			}
+		}
+		if err != nil && op.Kind == "reopen-under-faults" {
+			// Open may fail while I/O calls fail (it reports the error); once the failures have stopped the file opens
+			e.Stats["open-failed-under-faults"]++
+			e.Disk.Fault = nil
+			e.File = nil
+			err = e.open(txfile.Options{Observer: e.Cfg.Observer})
+		}
+		if err != nil {
 			if len(e.Attempts) > 0 {
 				e.fail("failed-commit-attempt-visible-but-incomplete: a commit attempt that had reported an error left its header on disk, and the file can not be opened any more: %v", err)
 			} else {
@@ -940,6 +963,23 @@ func (e *Engine) apply(op Op) Result {
 			e.Stats["reopen-shows-failed-attempt"]++
 			if !adopted {
 				e.fail("failed-commit-attempt-visible-but-incomplete: after the reopen the header of a commit attempt that had reported an error is the newest one, but its state is not complete: %s", firstFail)
+			} else {
+				// complete also means: its free lists and mapping pages are there (they may have been cut off or reused
+				// when the process rolled the attempt back)
+				e.fmu.Lock()
+				n := len(e.Failures)
+				e.fmu.Unlock()
+				e.CheckAllocator("after the reopen")
+				e.fmu.Lock()
+				var msg string
+				if len(e.Failures) > n {
+					msg = e.Failures[n]
+					e.Failures = e.Failures[:n]
+				}
+				e.fmu.Unlock()
+				if msg != "" {
+					e.fail("failed-commit-attempt-visible-but-incomplete: after the reopen the header of a commit attempt that had reported an error is the newest one, its pages are complete but its allocator state is not: %s", msg)
+				}
 			}
 		}
 		e.Attempts = nil
@@ -1063,11 +1103,75 @@ func (e *Engine) CheckAllocator(what string) {
 		}
 		return n
 	}
+	// the free lists' page counters
+	if uint64(s.DataAvail) != count(s.DataFree) || uint64(s.MetaAvail) != count(s.MetaFree) {
+		e.fail("free-list-accounting: %s: data free list holds %d pages, its counter says %d; meta free list holds %d pages, its counter says %d", what,
+			count(s.DataFree), s.DataAvail, count(s.MetaFree), s.MetaAvail)
+	}
 	inUse := uint64(len(s.WalMapping)) + count(s.WalMetaPages) + count(s.FreelistPages)
 	if uint64(s.MetaTotal) != count(s.MetaFree)+inUse {
 		e.fail("meta-area-accounting: %s: meta area of %d pages, but %d free + %d overwrite pages + %d mapping pages + %d free-list pages = %d", what,
 			s.MetaTotal, count(s.MetaFree), len(s.WalMapping), count(s.WalMetaPages), count(s.FreelistPages), count(s.MetaFree)+inUse)
 	}
+}
+
+// CheckAgainstDisk: at a quiescent point the allocator state and the mapping the process works with are the ones
+// a fresh Open of the current file contents computes (the process keeps seeing exactly the last committed state -
+// also after failed commits, rollbacks, and open-time transactions that failed). Not applicable while a commit
+// attempt that reported an error may be visible on disk (finding F2).
+func (e *Engine) CheckAgainstDisk(what string) {
+	if e.File == nil || e.Tx != nil || e.Dead || len(e.Attempts) > 0 || e.OpenAttempt || e.Disk.Fault != nil {
+		return
+	}
+	defer func() {
+		if r := recover(); r != nil {
+			e.fail("process-vs-disk: %s: PANIC while opening a copy of the file: %v", what, r)
+		}
+	}()
+	d2 := simdisk.FromImage("cmp", e.Disk.Snapshot())
+	f2, err := txfile.VerifOpen(d2, txfile.Options{})
+	if err != nil {
+		e.fail("process-vs-disk: %s: a copy of the current file contents can not be opened: %v", what, err)
+		return
+	}
+	defer f2.Close()
+	a, b := txfile.VerifSnapshot(e.File), txfile.VerifSnapshot(f2)
+	pages := func(l []txfile.VerifRegion) string {
+		var ids []uint64
+		for _, r := range l {
+			for id := r.ID; id < r.ID+uint64(r.Count); id++ {
+				ids = append(ids, id)
+			}
+		}
+		sort.Slice(ids, func(i, j int) bool { return ids[i] < ids[j] })
+		// as ranges
+		var sb strings.Builder
+		for i := 0; i < len(ids); {
+			j := i
+			for j+1 < len(ids) && ids[j+1] == ids[j]+1 {
+				j++
+			}
+			fmt.Fprintf(&sb, "[%d,%d)", ids[i], ids[j]+1)
+			i = j + 1
+		}
+		return sb.String()
+	}
+	diff := func(name string, x, y interface{}) {
+		if fmt.Sprint(x) != fmt.Sprint(y) {
+			e.fail("process-vs-disk: %s: %s of the process is %v, a fresh open of the same file has %v", what, name, x, y)
+		}
+	}
+	diff("data end marker", a.DataEnd, b.DataEnd)
+	diff("meta end marker", a.MetaEnd, b.MetaEnd)
+	diff("meta area size", a.MetaTotal, b.MetaTotal)
+	diff("max pages", a.MaxPages, b.MaxPages)
+	diff("data free pages", pages(a.DataFree), pages(b.DataFree))
+	diff("meta free pages", pages(a.MetaFree), pages(b.MetaFree))
+	diff("data avail counter", a.DataAvail, b.DataAvail)
+	diff("meta avail counter", a.MetaAvail, b.MetaAvail)
+	diff("free-list pages", pages(a.FreelistPages), pages(b.FreelistPages))
+	diff("mapping pages", pages(a.WalMetaPages), pages(b.WalMetaPages))
+	diff("overwrite mapping", a.WalMapping, b.WalMapping)
 }
 
 func (e *Engine) checkReader(r *reader, what string) {
@@ -1104,6 +1208,8 @@ func (e *Engine) checkReader(r *reader, what string) {
 // pages against the model.
 func (e *Engine) VerifyCommitted(what string) {
 	VerifyFileState(e.File, e.Committed, func(msg string) { e.fail("%s: %s", what, msg) })
+	e.CheckAllocator(what)
+	e.CheckAgainstDisk(what)
 }
 
 // VerifyFileState compares a file against an expected state via a read tx.
